@@ -263,7 +263,8 @@ func (h *c35state) renderKeyElem(el interface{}) string {
 			return fmt.Sprintf("%v:%s", rv.Field(0).Interface(), ts)
 		}
 	}
-	return fmt.Sprintf("%v:?", el)
+	// unrepaired GenericKey: the bare value (interpreted named types are indistinguishable here)
+	return fmt.Sprintf("%v:%T", el, el)
 }
 
 func (h *c35state) render(t xr.Type, expandTop bool) string {
@@ -362,13 +363,20 @@ func (h *c35state) dump(c *fast.Comp, old map[string]bool) string {
 		switch g := v.(type) {
 		case *fast.GenericType:
 			for key, t := range g.Instances {
-				add(h.renderKey(key), h.render(t, true))
+				u := h.render(t, true)
+				if t == nil || t.Kind() == reflect.Invalid {
+					h.fail("incomplete-instance-cached", fmt.Sprintf("generic type %s: the instance cached for [%s] was never completed (left behind by a failed instantiation)", n, h.renderKey(key)))
+				}
+				add(h.renderKey(key), u)
 			}
 		case *fast.GenericFunc:
 			for key, inst := range g.Instances {
 				u := "?"
 				if inst != nil && inst.Type != nil {
 					u = h.render(inst.Type, false)
+				}
+				if inst == nil || inst.Func == nil || *inst.Func == nil {
+					h.fail("incomplete-instance-cached", fmt.Sprintf("generic function %s: the instance cached for [%s] was never compiled (left behind by a failed instantiation)", n, h.renderKey(key)))
 				}
 				add(h.renderKey(key), u)
 			}
@@ -460,6 +468,10 @@ func (h *c35state) argKey(c *fast.Comp, src string) (s string, ok bool) {
 		}
 		v := e.EvalConst(fast.COptDefaults)
 		return fmt.Sprintf("%v:%s", v, h.render(e.Type, false)), true
+	}
+	// the key of a type must stand for that very type
+	if kt := xr.MakeKey(t).Type(); kt == nil || !kt.IdenticalTo(t) {
+		h.fail("named-type-key-degrades-to-underlying", fmt.Sprintf("xr.MakeKey(%v).Type() = %v: the key of the argument %s is the key of another type", t, kt, src))
 	}
 	return h.render(t, false), true
 }
@@ -632,8 +644,9 @@ func (h *c35state) resolve(c *fast.Comp, x *c35sx) string {
 			h.fail("reinstantiate-recompiled", fmt.Sprintf("%s compiled twice: caches grew from %d to %d instances", src, mid, after))
 		}
 	}
-	// oracle 2: the key of the returned instance is the argument list as the caller sees it
-	if x.head() == "g" && t.Named() {
+	// oracle 2: the instance is cached under the argument list as the caller's scope resolves it
+	// (types by identity, constants by value and type), and that entry is what was returned
+	if (x.head() == "g" || x.head() == "fg") && len(x.list) >= 2 && !x.list[1].isL {
 		var want []string
 		ok := true
 		for _, a := range x.list[2:] {
@@ -644,15 +657,39 @@ func (h *c35state) resolve(c *fast.Comp, x *c35sx) string {
 			}
 			want = append(want, s)
 		}
-		if ok {
-			if _, key, found := h.instOf(t); !found {
-				h.fail("instance-not-cached", fmt.Sprintf("%s: the returned type %v is in no Instances map", src, t))
-			} else if got := h.renderKey(key); got != strings.Join(want, ",") {
+		if sym := c.TryResolve(x.list[1].atom); ok && sym != nil {
+			w := strings.Join(want, ",")
+			var cached xr.Type
+			found := false
+			var keys []string
+			switch g := sym.Value.(type) {
+			case *fast.GenericType:
+				for key, inst := range g.Instances {
+					k := h.renderKey(key)
+					keys = append(keys, k)
+					if k == w {
+						cached, found = inst, true
+					}
+				}
+			case *fast.GenericFunc:
+				for key, inst := range g.Instances {
+					k := h.renderKey(key)
+					keys = append(keys, k)
+					if k == w && inst != nil {
+						cached, found = inst.Type, true
+					}
+				}
+			}
+			sort.Strings(keys)
+			switch {
+			case !found:
 				k := "instance-key-mismatch"
-				if strings.Contains(got, ":") {
+				if strings.Contains(w, ":") {
 					k = "const-key-ignores-type"
 				}
-				h.fail(k, fmt.Sprintf("%s: arguments resolve to [%s] in the caller's scope, the returned instance is cached under [%s]", src, strings.Join(want, ","), got))
+				h.fail(k, fmt.Sprintf("%s: arguments resolve to [%s] in the caller's scope, no instance is cached under that key (keys: %s)", src, w, strings.Join(keys, " | ")))
+			case cached == nil || xr.MakeKey(cached) != xr.MakeKey(t) || !cached.IdenticalTo(t):
+				h.fail("instance-of-other-arguments-returned", fmt.Sprintf("%s: returned %v, the instance cached for [%s] is %v", src, t, w, cached))
 			}
 		}
 	}
@@ -694,8 +731,8 @@ func c35exec(op string) Result {
 type c35g struct {
 	r      *rand.Rand
 	nname  int
-	tops   []string       // top-level named types / aliases
-	consts []string       // top-level constants
+	tops   []string          // top-level named types / aliases
+	consts []string          // top-level constants
 	gts    map[string][]bool // generic types: name -> parameter kinds (true = constant)
 	gfs    map[string][]bool
 	vars   []string
@@ -899,8 +936,10 @@ func c35gen(r *rand.Rand, tier string, emit func(string)) {
 		sinceReset++
 		emit("do " + g.op())
 	}
+	emit("beh 0")
+	emit("beh 1")
 	for i := 0; i < nBeh; i++ {
-		emit("beh " + strconv.Itoa(r.Intn(1<<30)))
+		emit("beh " + strconv.Itoa(2+r.Intn(1<<30)))
 	}
 }
 
@@ -1143,6 +1182,10 @@ var c35fixedOps = []string{
 	// a local generic shadows a top-level one; the top-level generic sees top-level names only
 	"do (T X) (GT Pair (T U) (st A T B U X X)) (B (T X) (R (g Pair X int)) (GT Pair (T U) (st P T)) (R (g Pair X int)) (B (R (g Pair X X))))",
 	"do (GF Id (T) (fn T T)) (GF Twice (T) (fn T (sl T)) (fg Id T) (g Box T) (fg Twice T)) (R (fg Twice int)) (B (T int) (R (fg Twice int)) (R (fg Id (g Box int))))",
+	// a named type built on a recursive type, its underlying type and a second named type with the same underlying type
+	"do (GT S (T) (sl (mp (pt int) T))) (GT S2 (T) (sl (mp (pt int) T))) (R (fg Id (g S (g Box int)))) (R (fg Id (sl (mp (pt int) (g Box int))))) (R (fg Id (g S2 (g Box int)))) (R (g Pair (g S2 (g Box int)) (g S (g Box int))))",
+	// an instantiation that fails after its forward declaration leaves no cache entry behind
+	"do (GT Arr2 (N T) (st F0 (ar N T) Next (pt (g Arr2 N T)))) (R (g Arr2 (c -1) int)) (R (g Arr2 (c 2) int)) (R (g Arr2 (c 2) Undefined)) (GF Bad (T) (fn T T) (g Arr2 (c -2) T)) (R (fg Bad int)) (R (fg Bad int))",
 	"reset",
 }
 
